@@ -93,6 +93,8 @@ type Violation struct {
 	Case   interface{} `json:"case"`
 	Stable string      `json:"stable,omitempty"`
 	Known  bool        `json:"known"`
+
+	unreproducible bool
 }
 
 // Report accumulates coverage for one property check.
@@ -301,7 +303,9 @@ func (r *Report) Violate(key, what string, c interface{}, rerun func() bool) {
 		}
 		r.mu.Lock()
 		v.Stable = fmt.Sprintf("%d/5", ok)
-		if ok != 5 {
+		if ok == 0 {
+			// Seen once and never again in 5 re-executions: not believed.
+			v.unreproducible = true
 			r.unstable++
 		}
 		r.mu.Unlock()
@@ -383,6 +387,10 @@ func (r *Report) Finish() {
 	var vsum []map[string]interface{}
 	for _, key := range r.vorder {
 		v := r.violations[key]
+		if v.unreproducible {
+			lines = append(lines, fmt.Sprintf("UNSTABLE property=%s key=%s did not reproduce in 5 re-executions (%s)", r.Property, key, v.What))
+			continue
+		}
 		if f := r.isKnown(key); f != nil {
 			v.Known = true
 			seenKnown[key] = true
@@ -439,12 +447,10 @@ func (r *Report) Finish() {
 	}
 	fmt.Printf("SUMMARY property=%s tier=%s evaluations=%d distinct_nontrivial=%d outcomes=%d violations=%d known=%d exhaustive=%v wall=%.1fs\n",
 		r.Property, Tier(), r.evaluations, r.distinctN, len(r.outcomes), unlisted, len(seenKnown), r.exhaustive, time.Since(r.start).Seconds())
-	if r.unstable > 0 {
-		fmt.Printf("UNSTABLE property=%s %d violation(s) did not reproduce 5/5\n", r.Property, r.unstable)
-		r.t.Fatalf("INFRA: unstable violation")
-	}
 	if unlisted > 0 {
 		r.t.Errorf("property %s violated (%d unlisted case(s))", r.Property, unlisted)
+	} else if r.unstable > 0 {
+		r.t.Fatalf("INFRA: %d violation(s) did not reproduce in 5 re-executions and no reproducible violation was found", r.unstable)
 	}
 }
 
